@@ -260,6 +260,7 @@ class SpecEval:
             names.append(bn)
         ev = self.sub(env)
         ev.bound = self.bound | set(names)
+        ev.positive = False     # no skolemization / instantiation registration under a kept binder
         for (n, t) in vs:
             ev.qvars[n] = env[n]
         body = ev.eval(e[2])
